@@ -107,6 +107,7 @@ type fragReader struct {
 	mode  string
 	rnd   *rand.Rand
 	reads int
+	eofWithData bool // the last bytes are returned together with io.EOF (allowed by the io.Reader contract)
 }
 
 func (r *fragReader) Read(p []byte) (int, error) {
@@ -138,6 +139,9 @@ func (r *fragReader) Read(p []byte) (int, error) {
 	}
 	copy(p, r.data[r.pos:r.pos+n])
 	r.pos += n
+	if r.eofWithData && r.pos >= len(r.data) {
+		return n, io.EOF
+	}
 	return n, nil
 }
 
@@ -311,9 +315,31 @@ func runFrameCase(c *FrameCase) *FrameResult {
 		frames = append(frames, fr{0, hl, len(wire), body})
 		start = FrameEvent{Op: "raw", Cfg: cf.tla(), HV: c.HV, Body: c.Body, Ps: []int{}, Enc: [][]int{}}
 	} else {
+		// carrier "mreader": the application keeps the leading parts of all its payloads in one record buffer and
+		// sends each payload as a multi-segment reader (leading part from the record, rest from elsewhere)
+		var rec []byte
+		recOff := make([]int, len(c.Ps))
+		recK := make([]int, len(c.Ps))
+		pre := make([][]byte, len(c.Ps))
+		if c.Carrier == "mreader" {
+			for i, p := range c.Ps {
+				pre[i] = framePayload(rnd, p)
+				k := p
+				if p >= 2 {
+					k = 1 + rnd.Intn(p-1)
+				}
+				recOff[i], recK[i] = len(rec), k
+				rec = append(rec, pre[i][:k]...)
+			}
+		}
 		for i, p := range c.Ps {
-			payload := framePayload(rnd, p)
-			if cf.Kind == "delim" && cf.DL > 1 && p > 0 && rnd.Intn(2) == 0 {
+			var payload []byte
+			if pre[i] != nil {
+				payload = pre[i]
+			} else {
+				payload = framePayload(rnd, p)
+			}
+			if pre[i] == nil && cf.Kind == "delim" && cf.DL > 1 && p > 0 && rnd.Intn(2) == 0 {
 				// admitted payloads may contain proper prefixes of the delimiter, also at their very end
 				k := 1 + rnd.Intn(cf.DL-1)
 				if k > p {
@@ -350,7 +376,13 @@ func runFrameCase(c *FrameCase) *FrameResult {
 							panic(err)
 						}
 						out = b
-					}}, carrierOf(c.Carrier, payload))
+					}}, func() netty.Message {
+						if c.Carrier == "mreader" {
+							k := recK[i]
+							return io.MultiReader(bytes.NewReader(rec[recOff[i]:recOff[i]+k]), bytes.NewReader(append([]byte(nil), payload[k:]...)))
+						}
+						return carrierOf(c.Carrier, payload)
+					}())
 				}()
 			}
 			if encErr != nil {
@@ -399,7 +431,15 @@ func runFrameCase(c *FrameCase) *FrameResult {
 			cuts[x] = true
 		}
 	}
-	src := &fragReader{data: wire[:cut], cuts: cuts, mode: c.Frag, rnd: rnd}
+	// a stream that ends inside a frame may hand over its last bytes together with io.EOF (the io.Reader contract
+	// allows it; the shipped transports never do, so complete streams are not delivered that way)
+	inside := cut > 0 && cf.Kind != "varlen" && cf.Kind != "packet" // (these two have no frames a stream could end inside of)
+	for _, f := range frames {
+		if cut == f.start || cut == f.start+f.size {
+			inside = false
+		}
+	}
+	src := &fragReader{data: wire[:cut], cuts: cuts, mode: c.Frag, rnd: rnd, eofWithData: inside && c.Seed%2 == 0}
 	if cf.Kind == "varlen" {
 		src.mode = cf.FragM // the messages of this codec are the transport reads themselves
 	}
@@ -671,7 +711,7 @@ func runFrameFuzz(c *FrameCase, res *FrameResult, fail func(prop, key, msg strin
 				}
 			}
 		}
-		src := &fragReader{data: data, mode: []string{"one", "rand", "whole"}[rnd.Intn(3)], rnd: rnd}
+		src := &fragReader{data: data, mode: []string{"one", "rand", "whole"}[rnd.Intn(3)], rnd: rnd, eofWithData: rnd.Intn(3) == 0}
 		for inv := 0; inv < 50; inv++ {
 			before := src.pos
 			var delivered []byte
